@@ -184,6 +184,7 @@ theorem runDelete_store (mask : Nat → DelOutcome) (st : CompState) (a : Act) :
   cases a with
   | emit k v r => exact .inl rfl
   | panic => exact .inl rfl
+  | expire ik v vers raw => exact .inl rfl
   | del ik raw =>
     simp only [runDelete]
     split
